@@ -309,7 +309,10 @@ def units(tier, seed):
         for a, b in nets.chunks(n, cs):
             us.append(("hyper", name, a, b, tier, seed))
     for m in EXACT_METHODS:
-        for name, cs in (("F", 6), ("BIG", 1)):
+        grid_nets = (("F", 6), ("BIG", 1))
+        if tier == "thorough":
+            grid_nets += (("U332", 300),)
+        for name, cs in grid_nets:
             n = len(netlist(name))
             for a, b in nets.chunks(n, cs):
                 us.append(("grid:" + m, name, a, b, tier, seed))
@@ -497,8 +500,6 @@ def work_grid(method, netsl, tier, seed, res):
         if n < 2:
             continue
         kk = k
-        if tier == "thorough" and len(space) > 7 and n > 8:
-            kk = 1
         for dev in deviations(space, kk):
             def call(dev=dev):
                 random.seed(seed)
